@@ -19,7 +19,9 @@ name = os.path.basename(place)[:-3]
 inlib = '/src/tests/' in place
 pkg = 'ruzstd-cli' if place.startswith('cli/') else 'ruzstd'
 feat = ' --features dict_builder' if 'dict_builder' in notes and pid == 'C20' else ''
+feat += (' ' + os.environ['SEED_DEMO_FLAGS']) if os.environ.get('SEED_DEMO_FLAGS') else ''
 demo_cmd = ('cargo test -p %s --offline%s --lib %s' % (pkg, feat, name)) if inlib else ('cargo test -p %s --offline%s --test %s' % (pkg, feat, name))
+demo_cmd += (' ' + os.environ['SEED_TEST_ARGS']) if os.environ.get('SEED_TEST_ARGS') else ''
 subprocess.run('git -C /repo worktree remove --force %s' % WT, shell=True, stdout=subprocess.DEVNULL, stderr=subprocess.DEVNULL)
 rc, out = sh('git -C /repo worktree add -q --detach %s HEAD' % WT, cwd='/')
 res = {'property': pid, 'variant': var, 'demo_place': place, 'demo_cmd': demo_cmd}
